@@ -30,7 +30,8 @@ def sh(cmd, cwd=None, env=None, timeout=900):
 def suite(wt):
     rc, out = sh("%s -m pytest -q -p no:cacheprovider --color=no -x tests 2>&1 | tail -3" % PY, cwd=wt)
     m = re.search(r"(\d+) passed", out)
-    return (int(m.group(1)) if m else 0), ("failed" in out or "error" in out.lower() and "passed" not in out), out.strip().splitlines()[-1] if out.strip() else ""
+    bad = re.search(r"\b\d+ (failed|error|errors)\b", out) is not None
+    return (int(m.group(1)) if m else 0), bad, out.strip().splitlines()[-1] if out.strip() else ""
 
 
 def demo(wt, path):
